@@ -4,6 +4,9 @@
 #include "cifmodel.hpp"
 #include <rapidcheck.h>
 
+// begin a generated case; once the shrink budget is used up the remaining shrink candidates are let through as passing
+#define VH_BEGIN(c) do { vh::begin_case(c); if (vh::shrink_exhausted()) RC_SUCCEED("shrink budget exhausted"); } while (0)
+
 namespace g {
 using cm::Value;
 using rc::Gen;
